@@ -1,20 +1,5 @@
 import Sylvia.Driver.Loop
-import Sylvia.Extracted.UtilsFns
-import Sylvia.Driver.BridgeOps
-/-! `svmodel`: the model driver, with the operations that run the functions regenerated from the Rust source. -/
-open DriverLoop Driver
-
-/-- the functions regenerated from sylvia/src/utils.rs by the function translator, run on the same tuples -/
-def opInterX (rest : String) : String :=
-  let msgs := parseLists rest
-  let fuel := msgs.length + (msgs.map List.length).sum + 2
-  match Extracted.Utils.assert_no_intersection Lex.cmpBytes fuel msgs.length msgs with
-  | .ok _ => "ok" | .panic => "panic" | .oof => "fuel"
-
-def extra (op rest : String) : Option String :=
-  match op with
-  | "interx" => some (opInterX rest)
-  | "intorespx" => some (Driver.opIntoRespX rest)
-  | _ => none
-
-def main : IO Unit := mainWith extra
+/-! `svmodel`: the model driver — the hand-written model only. Operations that run functions regenerated from the Rust source live
+in separate executables (`svx_utils`, `svx_bridge`), one per regenerated file, so that a regenerated file that no longer builds
+affects only the property it belongs to. -/
+def main : IO Unit := DriverLoop.mainWith (fun _ _ => none)
